@@ -24,8 +24,11 @@ def _copy_src(dst):
 
 def _run(prop, root):
     ev = os.path.join(root, "_evidence")
-    env = dict(os.environ, VERIF_REPO=root, VERIF_EVIDENCE_DIR=ev, VERIF_REPLAY_DIR=os.path.join(root, "_replay"), VERIF_TIER="quick")
-    cp = subprocess.run([sys.executable, "-B", "-m", "sa.run", prop, "--tier", "quick"], cwd=VERIF, env=env, capture_output=True, text=True, timeout=900)
+    env = dict(os.environ, VERIF_REPO=root, VERIF_EVIDENCE_DIR=ev, VERIF_REPLAY_DIR=os.path.join(root, "_replay"), VERIF_TIER="quick", VERIF_POOL=os.environ.get("VERIF_POOL", "2"))
+    try:
+        cp = subprocess.run([sys.executable, "-B", "-m", "sa.run", prop, "--tier", "quick"], cwd=VERIF, env=env, capture_output=True, text=True, timeout=3600)
+    except subprocess.TimeoutExpired:
+        return None, "TIMEOUT: the scratch run did not finish within an hour (machine overloaded?) - not counted"
     first = next((l for l in cp.stdout.splitlines() if l.strip().startswith("finding") or l.startswith("ANALYSIS-ERROR")), "")
     return cp.returncode, first.strip()[:260]
 
@@ -84,15 +87,15 @@ def run(prop: str) -> dict:
                 (out["benign"] if sd in benign else out["seeds"]).append({"seed": os.path.basename(sd), "applied": False, "note": ap.stderr[-160:]})
                 continue
             jobs.append((os.path.basename(sd), root, sd))
-        with ThreadPoolExecutor(max_workers=12) as ex:
+        with ThreadPoolExecutor(max_workers=max(2, min(8, (os.cpu_count() or 4) // 2))) as ex:
             results = [twin_res] + list(ex.map(lambda j: _run(prop, j[1]), jobs[1:]))
         for (name, _root, sd), (rc, first) in zip(jobs, results):
             if name == "twin":
                 out["twin"] = {"exit": rc, "silent": rc == 0, "first": first}
             elif sd in benign:
-                out["benign"].append({"seed": name, "applied": True, "exit": rc, "silent": rc == 0, "first": first})
+                out["benign"].append({"seed": name, "applied": True, "exit": rc, "silent": rc == 0, "first": first, **({"timeout": True} if rc is None else {})})
             else:
-                out["seeds"].append({"seed": name, "applied": True, "exit": rc, "reported": rc != 0, "first": first})
+                out["seeds"].append({"seed": name, "applied": True, "exit": rc, "reported": rc not in (0, None), "first": first, **({"timeout": True} if rc is None else {})})
     finally:
         shutil.rmtree(base, ignore_errors=True)
     out["seeds_reported"] = sum(1 for s in out["seeds"] if s.get("reported"))
